@@ -985,9 +985,12 @@ def check_C16(ctx):
     # database path: which file is read shows in csv database; log path: csv log
     srcs = ["flag", "env", "cfg", None]
     cfg_places = ["flag", "env", "default"]
-    nsets = ctx.scale(1, 8)
+    nsets = ctx.scale(2, 8)
     for vs in range(nsets):
         names = {s: "%s_%d.yaml" % (s or "dflt", vs) for s in ("flag", "env", "cfg")}
+        # odd value sets: the value given by flag / environment EQUALS the documented default (it must still win over the configuration file)
+        eqd = (vs % 2 == 1)
+        if eqd: names["flag"] = None; names["env"] = None
         for combo in itertools.product([False, True], repeat=3):        # (flag given, env given, config entry given)
             for place in cfg_places:
                 for setting in ("db", "log", "fmt", "depth", "today"):
@@ -997,25 +1000,27 @@ def check_C16(ctx):
                     c = dict(cmd=None, **NOCOLOR)
                     cfg = {}
                     if setting == "db":
-                        for s in ("flag", "env", "cfg"): files[names[s]] = book("from_" + s)
+                        for s in ("flag", "env", "cfg"):
+                            if names[s]: files[names[s]] = book("from_" + s)
                         files["food.yaml"] = book("from_default")
-                        if has["flag"]: c["f_db"] = names["flag"]
-                        if has["env"]: c["e_db"] = names["env"]
+                        if has["flag"]: c["f_db"] = names["flag"] or "food.yaml"
+                        if has["env"]: c["e_db"] = names["env"] or "food.yaml"
                         if has["cfg"]: cfg["db"] = names["cfg"]
                         c["cmd"] = "csv-db"
-                        want = "from_" + ("flag" if has["flag"] else "env" if has["env"] else "cfg" if has["cfg"] else "default")
+                        want = "from_" + (("flag" if names["flag"] else "default") if has["flag"] else ("env" if names["env"] else "default") if has["env"] else "cfg" if has["cfg"] else "default")
                         chk = lambda i, want=want: (want.encode() in i["stdout"], "csv database shows the book %r" % want)
                     elif setting == "log":
-                        for s in ("flag", "env", "cfg"): files[names[s]] = logf("from_" + s)
+                        for s in ("flag", "env", "cfg"):
+                            if names[s]: files[names[s]] = logf("from_" + s)
                         files["log.yaml"] = logf("from_default")
-                        if has["flag"]: c["f_log"] = names["flag"]
-                        if has["env"]: c["e_log"] = names["env"]
+                        if has["flag"]: c["f_log"] = names["flag"] or "log.yaml"
+                        if has["env"]: c["e_log"] = names["env"] or "log.yaml"
                         if has["cfg"]: cfg["log"] = names["cfg"]
                         c["cmd"] = "csv-log"
-                        want = "from_" + ("flag" if has["flag"] else "env" if has["env"] else "cfg" if has["cfg"] else "default")
+                        want = "from_" + (("flag" if names["flag"] else "default") if has["flag"] else ("env" if names["env"] else "default") if has["env"] else "cfg" if has["cfg"] else "default")
                         chk = lambda i, want=want: (want.encode() in i["stdout"], "csv log shows the log %r" % want)
                     elif setting == "fmt":
-                        lay = dict(flag="02.01.2006", env="2006-01-02", cfg="01/02/2006")
+                        lay = dict(flag="02.01.2006", env="2006-01-02", cfg="01/02/2006") if not eqd else dict(flag="2006/01/02", env="2006/01/02", cfg="01/02/2006")
                         eff = lay["flag"] if has["flag"] else lay["env"] if has["env"] else lay["cfg"] if has["cfg"] else "2006/01/02"
                         files["log.yaml"] = (gen._fmt(eff, 2021, 3, 4) + ":\n  x: 1\n").encode()      # readable only under the effective layout
                         if has["flag"]: c["f_fmt"] = lay["flag"]
@@ -1025,7 +1030,7 @@ def check_C16(ctx):
                         if c["cmd"] == "csv-log": chk = lambda i: (i["status"] == "ok" and b"2021-03-04" in i["stdout"], "the log dated in the effective layout is readable")
                         else: chk = lambda i, eff=eff: (i["status"] == "ok" and gen._fmt(eff, 2021, 3, 4).encode() + b":" in i["stdout"], "print reads and writes the date in the effective layout %s" % eff)
                     elif setting == "depth":
-                        dep = dict(flag=3, env=5, cfg=7)
+                        dep = dict(flag=3, env=5, cfg=7) if not eqd else dict(flag=10, env=10, cfg=4)
                         eff = dep["flag"] if has["flag"] else dep["env"] if has["env"] else dep["cfg"] if has["cfg"] else 10
                         chain = lambda n: "".join("r%d:\n  r%d: 1\n" % (j, j + 1) for j in range(n)).encode()
                         if has["flag"]: c["f_depth"] = dep["flag"]
@@ -1064,6 +1069,22 @@ def check_C16(ctx):
                         cases.append(c2); expect.append((setting, has, place, chk2))
                     ctx.nontriv(json.dumps([setting, combo, place, vs]))
                     ctx.tally("setting", setting)
+    for src in ("flag", "env", "cfg", None):
+        for place in cfg_places:
+            lay = "02.01.2006" if src else "2006/01/02"
+            files = {"food.yaml": b"", "log.yaml": (gen._fmt(lay, 2021, 1, 2) + ":\n  x: 1\n").encode()}
+            c = dict(cmd="stats", f_today=gen._fmt(lay, 2021, 1, 12), **NOCOLOR)
+            cfg = {}
+            if src == "flag": c["f_fmt"] = lay
+            elif src == "env": c["e_fmt"] = lay
+            elif src == "cfg": cfg["fmt"] = lay
+            if place == "flag": files["my.cfg"] = {"cfg": cfg}; c["f_config"] = "my.cfg"
+            elif place == "env": files["env.cfg"] = {"cfg": cfg}; c["e_config"] = "env.cfg"
+            else: files["@default-config"] = {"cfg": cfg}
+            c["files"] = files
+            cases.append(c); expect.append(("today-in-effective-format", dict(flag=src == "flag", env=src == "env", cfg=src == "cfg"), place,
+                                           lambda i: (i["status"] == "ok" and b"(10 days ago)" in i["stdout"], "--today is read in the effective date format and stats counts 10 days")))
+            ctx.nontriv(json.dumps(["today-x-fmt", src, place]))
     ctx.sample(dict(setting="db", sources=dict(flag=True, env=True, cfg=True), config_at="HR_CONFIG", argv=run.argv_env(cases[10])[0]))
     # explicit configuration file: loaded when it exists, an error when it does not
     f0 = {"food.yaml": b"", "log.yaml": b"2021/01/02:\n  x: 1\n"}
